@@ -609,6 +609,20 @@ fn http_check(id: &str, tier: &str, replay: Option<&str>) -> i32 {
         if v["replay"]["engine"] == "eseq" {
             return seq_replay(id, tier, file, &c16_c20_seq_runs(id, tier));
         }
+        if v["replay"]["engine"] == "ebin-wire" {
+            // the wire session again; the recorded class must show up
+            let (f, _) = crate::ebin::wire_session(seed());
+            let want = v["signature"].as_str().unwrap_or("").trim_start_matches("ebin-wire|").to_string();
+            for (class, msg) in f {
+                if class == want {
+                    println!("VIOLATION property={id} replay={file}");
+                    println!("  {msg}");
+                    return 1;
+                }
+            }
+            println!("replay of {file}: no violation of {id}");
+            return 0;
+        }
         // grammar replay: re-run the one server configuration and look for the same class
         let t = v["replay"]["task"].clone();
         let mut pool = crate::pool::Pool::spawn(1, "http", &json!({"seed": seed(), "monitors": mons}));
@@ -678,6 +692,35 @@ fn http_check(id: &str, tier: &str, replay: Option<&str>) -> i32 {
     }
     rep.cov("grammar_servers", json!(grammar_sizes));
     rep.cov("grammar_status_histogram", json!(statuses));
+    if id == "C15" && crate::ebin::server_binary().exists() {
+        // uploads that only exist on a real socket: a body that never completes
+        let mut pool = crate::pool::Pool::spawn(1, "bin", &json!({"seed": seed()}));
+        let r = pool.map(&[json!({"wire": true})]);
+        drop(pool);
+        match r.first() {
+            Some(Ok(res)) => {
+                if let Some(e) = res["error"].as_str() {
+                    rep.machinery_errors.push(e.to_string());
+                }
+                rep.cov("wire_requests_against_the_executable", json!(res["requests"]));
+                for f in res["findings"].as_array().cloned().unwrap_or_default() {
+                    let class = f["class"].as_str().unwrap_or("");
+                    if class == "machinery" {
+                        rep.machinery_errors.push(f["msg"].as_str().unwrap_or("").to_string());
+                        continue;
+                    }
+                    rep.violations.push(Violation {
+                        property: "C15".into(),
+                        signature: format!("ebin-wire|{class}"),
+                        message: format!("real executable over TCP: {}", f["msg"].as_str().unwrap_or("")),
+                        replay: json!({"engine": "ebin-wire"}),
+                    });
+                }
+            }
+            Some(Err(e)) => rep.machinery_errors.push(format!("bin worker: {e}")),
+            None => {}
+        }
+    }
     if id == "C20" && crate::ebin::server_binary().exists() {
         // the real executable (its own middleware stack sits outside WebServer::config): a few
         // launch configurations, every response of the scripted session including the answers
